@@ -147,11 +147,58 @@ func holdsLock(g uint64) bool {
 	return held[g] > 0
 }
 
+// lockEvent: "@L:<lock>" / "@R:<lock>" (about to acquire) and "@U:<lock>" (about to release),
+// emitted by the instrumented copy. The driver keeps, per goroutine, the locks it holds and, per
+// run, the order in which locks were nested: holding A while acquiring B is the edge A->B. A cycle
+// in that relation is a potential deadlock whatever the schedule of this run was.
+func (d *Driver) lockEvent(site string) {
+	g := goid()
+	kind, id := site[1], site[3:]
+	d.mu.Lock()
+	defer d.mu.Unlock()
+	if d.lockHeld == nil {
+		d.lockHeld = map[uint64][]string{}
+		d.lockEdges = map[[2]string]string{}
+	}
+	h := d.lockHeld[g]
+	if kind == 'U' {
+		for i := len(h) - 1; i >= 0; i-- {
+			if h[i] == id {
+				h = append(h[:i], h[i+1:]...)
+				break
+			}
+		}
+		if len(h) == 0 {
+			delete(d.lockHeld, g)
+		} else {
+			d.lockHeld[g] = h
+		}
+		return
+	}
+	for _, a := range h {
+		k := [2]string{a, id}
+		if a == id {
+			if kind == 'R' {
+				d.probe("recursive_read_lock")
+			}
+			continue
+		}
+		if _, ok := d.lockEdges[k]; !ok {
+			d.lockEdges[k] = leaderFrames(3, 4)
+		}
+	}
+	d.lockHeld[g] = append(h, id)
+}
+
 func (d *Driver) yield(instanceID, site string) {
 	if d.free {
-		if d.plan.Sched.YieldProb > 0 {
+		if d.plan.Sched.YieldProb > 0 && !strings.HasPrefix(site, "@") {
 			runtime.Gosched()
 		}
+		return
+	}
+	if strings.HasPrefix(site, "@") {
+		d.lockEvent(site)
 		return
 	}
 	if site == "handleGracePeriodExpired" && instanceID == "" {
